@@ -311,6 +311,19 @@ def rule_invalid_arg_guards(eng, rep, ctx):
             rep.bad(rule, eng.where(solve, cfg.ast_of(weak[0])), "solver.solve|weakened-guard|%s" % rid, "guard for `%s` (%s) is `%r`: boundary value is no longer rejected" % (rid, reason, weak[1]))
         else:
             missing.append(rid)
+    # an option that contradicts an argument: (row id, parameter key, required truth of the key, names on the smaller side, names on the larger side)
+    for (rid, key, want, small, large, reason) in tables.OPTION_VS_ARGUMENT_ROWS:
+        hit = None
+        for s, gs in site_guards.items():
+            opt = any((a.op == ("truth" if want else "false")) and isinstance(a.lhs, ast.Call) and param_key(eng, a.lhs) == key for a in gs)
+            cmp_ = any(a.op in ("lt", "le") and set(small) <= mentions(a.lhs) and set(large) <= mentions(a.rhs) for a in gs)
+            if opt and cmp_:
+                hit = s
+        if hit is not None:
+            classified.add(hit)
+            rep.ok(rule, eng.where(solve, cfg.ast_of(hit)), "contradiction `%s` guarded" % rid)
+        else:
+            missing.append(rid)
     # option-pair rows
     for (rid, conds, reason) in tables.OPTION_PAIR_ROWS:
         hit = None
@@ -848,6 +861,100 @@ def rule_validators_test_the_value_itself(eng, rep, rule="C07-5b.type-validators
     rep.require_count(rule, "type validators", n, 4)
 
 
+# --------------------------------------------------------------------------------------------- C07-13
+def rule_coordinate_precondition_established(eng, rep, rule="C07-13.precondition-of-the-coordinate-initialiser-is-established-by-solve"):
+    """Controller.initialise_coordinate_directions asserts num_pts <= (n+1)(n+2)/2; solve_main calls it whenever init.random_initial_directions is false.
+    An AssertionError out of solve is excluded only if solve itself establishes `random or npt <= bound` for the npt of every run:
+      (a) the validation block rejects `not random and npt > bound` with the input-error flag;
+      (b) every later assignment to npt (the hard-restart loop grows it) is followed, on every path to the next solve_main call, by a clamp
+          `npt = min(npt, bound)` unless random directions are in use."""
+    from ..dataflow import Flow
+    from .common import arg_of, assigned_names
+    KEY = "init.random_initial_directions"
+    ic = eng.fn("controller.Controller.initialise_coordinate_directions")
+    bound = None
+    for node in eng.prog.own_nodes(ic):
+        if isinstance(node, ast.Assert) and isinstance(node.test, ast.Compare) and len(node.test.ops) == 1 and isinstance(node.test.ops[0], (ast.LtE, ast.Lt)) and "num_pts" in ekey(node.test.left):
+            bound = node.test.comparators[0]
+    if bound is None:
+        rep.unknown(rule, eng.where(ic), "the asserted precondition `num_pts <= ...` of the coordinate initialiser was not found")
+        return
+
+    def norm(e):
+        return ekey(e).replace("self.n()", "n").replace(" ", "")
+
+    B = norm(bound)
+    solve = eng.fn("solver.solve")
+    cfg = eng.cfg(solve)
+    sm_calls = [cfg.cfg_node(ci.node) for ci in eng.calls_in(solve) if any(t.fid == "solver.solve_main" for t in ci.targets)]
+    npt_name = None
+    for ci in eng.calls_in(solve):
+        if any(t.fid == "solver.solve_main" for t in ci.targets):
+            e = arg_of(eng, ci.node, eng.fn("solver.solve_main"), "npt")
+            if isinstance(e, ast.Name):
+                npt_name = e.id
+    if not sm_calls or npt_name is None:
+        rep.unknown(rule, eng.where(solve), "solve_main call sites / their npt argument not found")
+        return
+
+    def is_random(e):
+        return isinstance(e, ast.Call) and param_key(eng, e) == KEY
+
+    # (a) validation guard
+    found = False
+    for n, d in cfg.g.nodes(data=True):
+        st = d["ast"]
+        if d["kind"] == "stmt" and isinstance(st, ast.Assign) and ekey(st.targets[0]) == "exit_info" and "EXIT_INPUT_ERROR" in ekey(st.value):
+            gs = [a for (_b, a) in guards_of(cfg, n)]
+            has_r = any(a.op == "false" and is_random(a.lhs) for a in gs)
+            has_b = any(a.op == "lt" and norm(a.lhs) == B and ekey(a.rhs) == npt_name for a in gs)      # bound < npt
+            if has_r and has_b:
+                found = True
+                rep.ok(rule, eng.where(solve, st), "`not params('%s') and %s > %s` is rejected with the input-error flag" % (KEY, npt_name, ekey(bound)))
+    if not found:
+        rep.bad(rule, eng.where(solve), "solver.solve|coordinate-precondition-not-validated",
+                "nothing in solve rejects `%s > %s` together with %s = False: solve_main then calls initialise_coordinate_directions, whose assertion `%s` fails (AssertionError out of solve)"
+                % (npt_name, ekey(bound), KEY, short(bound, 40)))
+    # (b) later assignments to npt
+    gret = [n for n, d in cfg.g.nodes(data=True) if d["kind"] == "stmt" and isinstance(d["ast"], ast.Return)]
+    first_call = min(sm_calls)
+    grows = [n for n, d in cfg.g.nodes(data=True) if d["kind"] == "stmt" and isinstance(d["ast"], (ast.Assign, ast.AugAssign))
+             and npt_name in assigned_names(d["ast"].targets[0] if isinstance(d["ast"], ast.Assign) else d["ast"].target)
+             and cfg.path_avoiding(first_call, n, []) is not None]
+
+    def is_clamp(st):
+        return isinstance(st, ast.Assign) and isinstance(st.value, ast.Call) and isinstance(st.value.func, ast.Name) and st.value.func.id == "min" \
+            and any(norm(a) == B for a in st.value.args) and any(ekey(a) == npt_name for a in st.value.args)
+
+    def node_fn(n, s):
+        st = cfg.ast_of(n)
+        if n in grows:
+            return ["OK"] if is_clamp(st) else ["U"]
+        return [s]
+
+    def edge_fn(a, b_, e, s):
+        if s == "U" and cfg.kind(a) == "cond" and e.get("label") in (True, False):
+            at = atom_of(cfg.ast_of(a), e["label"])
+            if at.op == "truth" and is_random(at.lhs):
+                return "OK"
+            if at.op == "le" and ekey(at.lhs) == npt_name and norm(at.rhs) == B:
+                return "OK"
+        return s
+
+    fl = Flow(cfg, "OK", node_fn, edge_fn)
+    for c in sm_calls:
+        st = set(fl.states(c))
+        site = eng.where(solve, cfg.ast_of(c))
+        if "U" in st:
+            p = fl.path_to(c, "U")
+            rep.bad(rule, site, "solver.solve|npt-grown-past-coordinate-limit",
+                    "`%s` is re-assigned after validation and can reach this solve_main call above %s while %s is False: the run starts with the coordinate initialiser and fails its assertion"
+                    % (npt_name, ekey(bound), KEY), path=cfg.describe_path(p)[-10:] if p else None)
+        else:
+            rep.ok(rule, site, "every re-assignment of `%s` reaching this call is clamped to %s unless random initial directions are in use" % (npt_name, ekey(bound)), nontrivial=bool(grows))
+    rep.require_count(rule, "solve_main call sites", len(sm_calls), 2)
+
+
 # --------------------------------------------------------------------------------------------- C07-12
 def rule_restart_geometry_loop_in_range(eng, rep, rule="C07-12.restart-geometry-loop-stays-inside-the-list-of-closest-points"):
     """soft_restart cuts the sorted list of closest points to L[a : g + a] (a = 1 when the incumbent is kept) and loops over range(min(g, U)), reading L[i].
@@ -1106,6 +1213,7 @@ def run(eng, rep):
     rule_exit_info_nonnull(eng, rep)
     rule_validators_test_the_value_itself(eng, rep)
     rule_restart_geometry_loop_in_range(eng, rep)
+    rule_coordinate_precondition_established(eng, rep)
     rule_internal_param_updates(eng, rep)
     rule_definite_assignment(eng, rep)
     from . import c20
